@@ -36,7 +36,7 @@ type loopStore struct {
 	failLists  int
 	stores     int
 	lists      int
-	cleanLists int // List calls made by the instance's cleaner
+	cleanLists int  // List calls made by the instance's cleaner
 	dead       bool // the instance "crashed": nothing it still attempts reaches the bucket
 }
 
